@@ -155,6 +155,15 @@ class Guards(object):
         if isinstance(e, ast.UnaryOp) and isinstance(e.op, ast.Not):
             inner = self._compile(e.operand)
             return lambda w: not inner(w)
+        if isinstance(e, ast.Compare) and len(e.ops) == 1 and isinstance(e.left, ast.Constant) \
+                and isinstance(e.comparators[0], ast.Constant):
+            a_, b_, op = e.left.value, e.comparators[0].value, e.ops[0]
+            fold = {ast.Is: lambda: a_ is b_ if (a_ is None or b_ is None or isinstance(a_, bool) or isinstance(b_, bool)) else a_ == b_,
+                    ast.IsNot: lambda: not (a_ is b_ if (a_ is None or b_ is None or isinstance(a_, bool) or isinstance(b_, bool)) else a_ == b_),
+                    ast.Eq: lambda: a_ == b_, ast.NotEq: lambda: a_ != b_}.get(type(op))
+            if fold is not None:
+                val = bool(fold())
+                return lambda w, val=val: val
         a = self.atom(e)
         if a is not None:
             return a
@@ -454,6 +463,19 @@ class _Unroll(ast.NodeTransformer):
                 return ast.copy_location(ast.BoolOp(op=op, values=vals) if len(vals) > 1 else vals[0], node)
         return node
 
+    def visit_Assign(self, node):
+        self.generic_visit(node)
+        return self._split(node)
+
+    def _split(self, node):
+        from ..index import clone
+        if isinstance(node, ast.Assign) and isinstance(node.value, ast.IfExp):
+            v = node.value
+            a = ast.copy_location(ast.Assign(targets=[clone(t) for t in node.targets], value=v.body), node)
+            b = ast.copy_location(ast.Assign(targets=[clone(t) for t in node.targets], value=v.orelse), node)
+            return ast.copy_location(ast.If(test=v.test, body=[self._split(a)], orelse=[self._split(b)]), node)
+        return node
+
     def visit_Subscript(self, node):
         self.generic_visit(node)
         if isinstance(node.slice, ast.IfExp) and isinstance(node.ctx, ast.Load):
@@ -478,3 +500,72 @@ def unrolled(fi):
     ast.fix_missing_locations(new)
     set_parents(new)
     return View(fi, new)
+
+
+# ------------------------------------------------------------------ local inlining of procedure-like helper calls
+def inline_procedures(idx, fi, only=None):
+    """View of the function in which expression statements `recv.helper(args)` calling a package function that returns
+    nothing (no `return <value>`) are replaced by the helper's body (parameters substituted by the arguments).
+    `only`: restrict to these qualified names (e.g. the unreviewed helpers the normaliser could not inline)."""
+    from ..index import clone, set_parents
+    orig = getattr(fi, 'original', fi)
+    node = clone(fi.node)
+    set_parents(node)
+    # map cloned Expr statements to original calls by position in a parallel walk
+    pairs = []
+    for a, b in zip(ast.walk(fi.node), ast.walk(node)):
+        if isinstance(a, ast.Expr) and isinstance(a.value, ast.Call):
+            pairs.append((a, b))
+    changed = False
+    for a, b in pairs:
+        try:
+            targets, how = idx.resolve_call(orig, a.value)
+        except Exception:
+            continue
+        fts = [t for t in targets if hasattr(t, 'node')]
+        if len(fts) != 1:
+            continue
+        callee = fts[0]
+        if only is not None and callee.qualname not in only:
+            continue
+        if any(isinstance(x, ast.Return) and x.value is not None for x in walk_own(callee.node)) or \
+                any(isinstance(x, (ast.Yield, ast.YieldFrom, ast.Global, ast.Nonlocal)) for x in ast.walk(callee.node)):
+            continue
+        if any(isinstance(x, ast.Return) for x in walk_own(callee.node)):
+            continue                      # bare early returns would need restructuring
+        params = list(callee.params)
+        if callee.cls is not None and not callee.is_static:
+            params = params[1:]
+        try:
+            bound = bind_call(a.value, params)
+        except AnalysisError:
+            continue
+        if set(bound) != set(params) or callee.node.args.vararg or callee.node.args.kwarg:
+            continue
+        body = [clone(s) for s in callee.node.body
+                if not (isinstance(s, ast.Expr) and isinstance(s.value, ast.Constant))]
+        caller_names = lib.names_in(fi.node)
+        rename = {}
+        for s in body:
+            for n in assigned_names(s):
+                if n in caller_names and n not in bound:
+                    rename[n] = n + '_inlp'
+        new_body = []
+        for s in body:
+            s2 = nf._Subst({k: v for k, v in bound.items()}).visit(s)
+            for n in ast.walk(s2):
+                if isinstance(n, ast.Name) and n.id in rename:
+                    n.id = rename[n.id]
+            new_body.append(s2)
+        par = parent(b)
+        for field in ('body', 'orelse', 'finalbody'):
+            lst = getattr(par, field, None)
+            if isinstance(lst, list) and any(x is b for x in lst):
+                i = [k for k, x in enumerate(lst) if x is b][0]
+                lst[i:i + 1] = new_body or [ast.Pass()]
+                changed = True
+    if not changed:
+        return fi
+    ast.fix_missing_locations(node)
+    set_parents(node)
+    return View(fi, node)
